@@ -339,7 +339,7 @@ func c17Program(run *common.Run, prog int) {
 			}
 		case k < 8:
 			all := r.Chance(1, 3)
-			prefix := common.Pick(r, []string{"a", "a\x00", "ab", "b", "\xff", "zz", "a\xff"})
+			prefix := common.Pick(r, []string{"a", "a\x00", "ab", "b", "\xff", "zz", "a\xff", "L", gen.LongKey1[:150], gen.LongKey3})
 			desc = fmt.Sprintf("DropRowRange(%s,all=%v,%q)", id, all, prefix)
 			sawDrop = true
 			do = func(sv *drive.Srv) string {
